@@ -11,6 +11,7 @@ parameter sets and on real optimisations (trf / dogbox / lm) of a small decay sc
 """
 from __future__ import annotations
 
+import json
 import math
 import warnings
 from fractions import Fraction
@@ -1081,9 +1082,80 @@ def fixed_opt_cases():
     return out
 
 
+def typed_bounds_probe(ck):
+    """Bounds given as Python ints (what `min: 2` in a yml file gives) for EVERY free parameter, some non-negative: the
+    optimiser's box must be the logarithms / the bounds themselves, as floats.  (Round-2 seeded change C11-6: arrays built
+    from the raw attributes were int64 when every free bound was an int, and the in-place log truncated.)"""
+    from glotaran.parameter import Parameters
+    rng = ck.rng
+    for n in range(ck.n(40, 400)):
+        k = rng.randint(1, 4)
+        items, want = [], []
+        for i in range(k):
+            nn = rng.random() < 0.6
+            lo = rng.choice([2, 3, 4, 7]) if nn else rng.choice([-5, -1, 0, 2])
+            hi = lo + rng.choice([1, 3, 10])
+            v = lo + (hi - lo) * rng.choice([0.25, 0.5, 0.75])
+            items.append([f"p{i}", float(v), {"min": lo, "max": hi, "non-negative": nn}])
+            want.append((math.log(lo), math.log(hi)) if nn else (float(lo), float(hi)))
+        route = rng.choice(["list", "yml"])
+        case = {"op": "typed-bounds", "items": items, "route": route}
+        if route == "list":
+            ps = Parameters.from_list(items)
+        else:
+            from glotaran.io import load_parameters
+            txt = "\n".join(f"- [{it[0]}, {it[1]!r}, {{min: {it[2]['min']}, max: {it[2]['max']}, non-negative: {str(it[2]['non-negative']).lower()}}}]" for it in items)
+            ps = load_parameters(txt, format_name="yml_str")
+        ck.oracle_evals += 1
+        ck.count("probe:int-typed-bounds")
+        ck.case(("typed-bounds", json.dumps(case, sort_keys=True)), True)
+        _, _, flo, fhi = ps.get_label_value_and_bounds_arrays(exclude_non_vary=True)
+        for i, (wl, wh) in enumerate(want):
+            if not (abs(float(flo[i]) - wl) <= 4 * ULP * max(abs(wl), 1.0) and abs(float(fhi[i]) - wh) <= 4 * ULP * max(abs(wh), 1.0)):
+                ck.violation("bound-not-transformed:int-typed-bounds", f"optimiser box of p{i} is [{float(flo[i])!r}, {float(fhi[i])!r}], "
+                             f"the (log-)bounds are [{wl!r}, {wh!r}]", case)
+                return
+
+
+def expression_chain_probe(ck):
+    """"parameters defined by an expression keep their definition": after the optimiser sets the free values, an expression
+    parameter equals its expression on the current values — also when it is declared before the expression parameter it
+    refers to and the step is as small as a finite-difference step or the values are tiny.  (The full property is C12's;
+    this probe keeps the clause inside C11.  Round-2 seeded change C11-4: the re-evaluation loop stopped on np.isclose.)"""
+    from glotaran.parameter import Parameters
+    rng = ck.rng
+    for n in range(ck.n(30, 300)):
+        scale = rng.choice([1.0, 1.0, 2.0 ** -30, 2.0 ** 10])
+        b0 = scale * rng.choice([0.5, 1.0, 3.0])
+        fa, fm = rng.choice([2.0, 3.0, 0.5]), rng.choice([2.0, 4.0, 0.25])
+        items = [["fast", 0.0, {"expr": f"{fa}*$mid"}], ["mid", 0.0, {"expr": f"$b*{fm}"}], ["b", b0]]
+        if rng.random() < 0.5:
+            items.insert(0, ["top", 0.0, {"expr": "$fast + $mid"}])
+        ps = Parameters.from_list(items)
+        step = rng.choice([1.0 + 2.0 ** -26, 1.0 + 2.0 ** -20, 2.0, 1.0 - 2.0 ** -27])
+        seq = [b0 * step, b0 * step * step, b0]
+        case = {"op": "expression-chain", "items": items, "values_of_b": seq}
+        ck.oracle_evals += 1
+        ck.count("probe:expression-chain")
+        ck.case(("expression-chain", json.dumps(case, sort_keys=True)), True)
+        for v in seq:
+            ps.set_from_label_and_value_arrays(["b"], np.array([v]))
+            mid = v * fm
+            fast = fa * mid
+            got = {l: ps.get(l).value for l in ("mid", "fast")}
+            if got["mid"] != mid or got["fast"] != fast or ("top" in ps.labels and ps.get("top").value != fast + mid):
+                ck.violation("expression-stale-after-set", f"after set b = {v!r}: mid = {got['mid']!r} (expression gives {mid!r}), "
+                             f"fast = {got['fast']!r} (expression gives {fast!r})", case)
+                return
+
+
 def run(ck):
     te = TermEval()
     jobs_all = []
+    with warnings.catch_warnings():
+        warnings.simplefilter("ignore")
+        typed_bounds_probe(ck)
+        expression_chain_probe(ck)
     specs = [(s, "dicts") for s in FIXED_SPECS]
     for c in core.load_corpus(PROP):
         if c.get("kind") == "opt":
@@ -1198,6 +1270,12 @@ def replay(ck, case):
             continue
         if c.get("op") == "underflow-witness":
             underflow_witness(ck)
+            continue
+        if c.get("op") in ("typed-bounds", "expression-chain"):
+            # the probes are self-contained streams: re-run them (the recorded input is among what they generate for this seed)
+            ck.rng.seed(f"{PROP}:{case.get('seed', 0)}")
+            typed_bounds_probe(ck)
+            expression_chain_probe(ck)
             continue
         spec = spec_unjson(c["spec"])
         route = c.get("route", "dicts")
